@@ -155,6 +155,18 @@
 //! See [typegen](https://docs.rs/crux_core/latest/crux_core/typegen/index.html) for details.
 //!
 
+// Named schedule point for the verification harness, compiles to nothing
+// unless the `crux_verif` feature is on
+macro_rules! verif_point {
+    ($name:literal) => {
+        #[cfg(feature = "crux_verif")]
+        $crate::verif::point($name);
+    };
+}
+
+#[cfg(feature = "crux_verif")]
+pub mod verif;
+
 pub mod bridge;
 pub mod capability;
 pub mod command;
